@@ -133,6 +133,12 @@ def run(ctx):
             sol = k5_case(ctx, inst)
             if it == 0 and sol:
                 ctx.rep.sample({"instance": inst, "solution": {k: sol[k] for k in sol if not k.startswith("_")}})
+    # node-weighted input (incl. cyclic graphs with self-loops: a node visited several times counts several times)
+    for cls in ["kFlowDecomp", "MinFlowDecomp", "kFlowDecompCycles", "MinFlowDecompCycles"]:
+        for it in range(ctx.n(10, 100)):
+            inst = models.node_instance(rng, cls)
+            inst["options"] = {"optimize_with_greedy": rng.random() < 0.5} if cls in ("kFlowDecomp", "MinFlowDecomp") else {}
+            k5_case(ctx, inst, suite="K5.node_mode")
     # zero-flow edges together with ignored edges (MILP route): nothing may be routed with positive weight over a
     # non-ignored edge of flow 0
     for it in range(ctx.n(40, 400)):
